@@ -814,6 +814,17 @@ STATIC_PATTERNS = [r'\bstatic\b', r'thread_local!', r'lazy_static', r'\bOnceCell
                    r'\bCell<', r'\bRefCell<', r'\bMutex<', r'\bRwLock<', r'\bAtomic[A-Z]\w*', r'\bunsafe\b',
                    r'\bstd::env\b', r'\bstd::fs\b', r'\bSystemTime\b', r'\bInstant\b', r'\brand\b']
 
+def evaluator_hashes(repo):
+    """normalised text (comments, white space, test modules and verification hooks removed) of the hand-modelled evaluator
+    sources: ast.rs of each evaluator and eval_number/number.rs"""
+    h = {}
+    for ev in EVS:
+        p = os.path.join(repo, 'src', 'eval_' + ev, 'ast.rs')
+        h['eval_%s/ast.rs' % ev] = hashlib.sha256(norm(strip_hooks(non_test(read_rs(p)))).encode()).hexdigest()
+    p = os.path.join(repo, 'src', 'eval_number', 'number.rs')
+    h['eval_number/number.rs'] = hashlib.sha256(norm(strip_hooks(non_test(read_rs(p)))).encode()).hexdigest()
+    return h
+
 def scan_statics(repo):
     found = []
     for root, _, files in os.walk(os.path.join(repo, 'src')):
@@ -922,7 +933,8 @@ def main():
             ms = strip_hooks(read_rs(os.path.join(a.repo, 'src', 'eval_' + ev, 'mod.rs')))
             mods[ev] = hashlib.sha256(norm(fn_body(ms, 'eval_' + ev) or '').encode()).hexdigest()
         ds = read_rs(os.path.join(a.repo, 'src', 'utils', 'deserialize_superscript_number.rs'))
-        json.dump({'engine': eng, 'mods': mods, 'deser': hashlib.sha256(norm(ds).encode()).hexdigest()}, open(a.shape, 'w'), indent=1)
+        json.dump({'engine': eng, 'mods': mods, 'deser': hashlib.sha256(norm(ds).encode()).hexdigest(),
+                   'evaluators': evaluator_hashes(a.repo)}, open(a.shape, 'w'), indent=1)
         print('wrote', a.shape)
         return
     notes = []
@@ -931,6 +943,8 @@ def main():
            'From Coq Require Import List ZArith NArith Bool.',
            'From SC Require Import Base.F64 Base.Dec Base.Num Base.Oracle Lang.Syntax Lang.Lexer Lang.Parser.',
            'Import ListNotations.', 'Local Open Scope N_scope.', '']
+    cur = evaluator_hashes(a.repo)
+    report['evaluator_sources_changed'] = sorted(k for k, v in cur.items() if shape.get('evaluators', {}).get(k) != v)
     sup = translate_sup_map(a.repo, notes)
     cats = translate_categories(a.repo, notes)
     if cats is not None:
